@@ -51,4 +51,46 @@ mod verif_witness_generated_app {
         assert!(c.verify().is_ok(), "--check fails right after a normal run");
         let _ = std::fs::remove_dir_all(d);
     }
+    /// "Re-running on unchanged inputs modifies no file": the manifest with a path dependency, written through a
+    /// symlinked project directory, first when the crate directory does not exist yet and then again — in the order
+    /// GeneratedApp::persist uses (normalize_path_dependencies, create_dir_all, persist_manifest).
+    #[cfg(unix)]
+    #[test]
+    fn the_manifest_with_path_dependencies_converges_through_a_symlink() {
+        use cargo_manifest::{Dependency, DependencyDetail};
+        let scratch = dir("symlink");
+        let real = scratch.join("real").join("project");
+        std::fs::create_dir_all(real.join("dep")).unwrap();
+        let link = scratch.join("project");
+        std::os::unix::fs::symlink(&real, &link).unwrap();
+        for (what, project) in [("through the symlink", link.clone()), ("through the real path", real.clone())] {
+            let pkg = project.join(format!("server_sdk_{}", what.len()));
+            let fresh_manifest = || {
+                let mut m = manifest();
+                m.dependencies.insert("dep".to_string(), Dependency::Detailed(DependencyDetail { path: Some(project.join("dep").to_str().unwrap().to_owned()), ..Default::default() }));
+                m.dependencies.insert("http".to_string(), Dependency::Simple("1".into()));
+                m
+            };
+            let run = |first: bool| {
+                let mut m = fresh_manifest();
+                GeneratedApp::normalize_path_dependencies(&mut m, &pkg).unwrap();
+                if first { std::fs::create_dir_all(pkg.join("src")).unwrap(); }
+                let mut w = AppWriter::update_mode();
+                GeneratedApp::persist_manifest(&m, &pkg, &mut w).unwrap();
+            };
+            run(true);
+            age(&pkg.join("Cargo.toml"));
+            let after_first = (std::fs::read(pkg.join("Cargo.toml")).unwrap(), std::fs::metadata(pkg.join("Cargo.toml")).unwrap().modified().unwrap());
+            run(false);
+            let after_second = (std::fs::read(pkg.join("Cargo.toml")).unwrap(), std::fs::metadata(pkg.join("Cargo.toml")).unwrap().modified().unwrap());
+            assert_eq!(String::from_utf8_lossy(&after_first.0), String::from_utf8_lossy(&after_second.0), "{what}: the second run on unchanged inputs generated a different manifest");
+            assert_eq!(after_first.1, after_second.1, "{what}: the second run on unchanged inputs rewrote the manifest");
+            let mut m = fresh_manifest();
+            GeneratedApp::normalize_path_dependencies(&mut m, &pkg).unwrap();
+            let mut c = AppWriter::check_mode();
+            GeneratedApp::persist_manifest(&m, &pkg, &mut c).unwrap();
+            assert!(c.verify().is_ok(), "{what}: --check fails right after a normal run");
+        }
+        let _ = std::fs::remove_dir_all(scratch);
+    }
 }
